@@ -93,6 +93,8 @@ TStep ==
      \/ Ev.ev = "unregister" /\ TUnregister
      \/ Ev.ev = "expect" /\ TExpect
      \/ Ev.ev = "tick" /\ TTick
+     \/ Ev.ev = "idle" /\ Idle /\ Clause(4, ObsKeysOK(Ev.cache) /\ cache' = ObsCache(Ev.cache))
+                       /\ Clause(6, cbs' = ToSet(Ev.cbs))
      \/ Ev.ev = "descr" /\ TDescribe
      \/ Ev.ev = "e2e" /\ TE2E
 
